@@ -81,6 +81,12 @@ def run_check(mod, pid, tier, seed, t0, skip_lean=False):
         print(tr.get("stderr", "")[-1500:])
         print("tracer crashed")
         broken.append({"kind": "tracer", "name": "tracer.py", "message": tr.get("stderr", "")[-300:]})
+    for gk, gv in (tr.get("generator_errors") or {}).items():
+        # a generator of the tracer / translator failed as a whole: every definition it writes is missing or stale
+        broken.append({"kind": "tracer", "name": f"generator {gk}", "message": str(gv)[:300]})
+    for want in getattr(mod, "TIE_A", []):
+        if want.startswith("code:") and not any(k.startswith(want) for k in tr.get("functions", {})):
+            broken.append({"kind": "tracer", "name": want, "message": "the function was not translated in this run (no status entry)"})
     tie_a = {}
     for k, v in tr.get("functions", {}).items():
         if any(k.startswith(p) for p in getattr(mod, "TIE_A", [])):
